@@ -10,6 +10,7 @@ for i in $IDS; do
   t0=$(date +%s)
   VERIF_SEED=$SEED /verif/check $i $TIER > /verif/logs/${i}_${TIER}_s${SEED}.log 2>&1; rc=$?
   t1=$(date +%s)
+  cp /verif/evidence/$i.json /verif/logs/${i}_${TIER}_s${SEED}.evidence.json 2>/dev/null
   echo "$i rc=$rc wall=$((t1-t0)) viol=$(grep -c '^VIOLATION' /verif/logs/${i}_${TIER}_s${SEED}.log) known=$(grep -c '^KNOWN-FINDING' /verif/logs/${i}_${TIER}_s${SEED}.log) :: $(grep '^\[check\] C' /verif/logs/${i}_${TIER}_s${SEED}.log | tail -1 | cut -c1-200)" >> $OUT
 done
 echo DONE >> $OUT
